@@ -202,3 +202,41 @@ Lemma best_abi_via_gen c t N :
 Proof.
   unfold best_abi. rewrite gen_exact_multiple_eq, gen_simd_vector_size_eq. cbv zeta. reflexivity.
 Qed.
+
+(** * matmul_mk_smalln.h: the eleven overloads of _matmul_mk_smalln partition the values of N by the number
+    nv = ceil(N / W) of column vectors, and the overload that serves N unrolls [smalln_unroll nv] rows with
+    M0 = M / u * u - the row tiling [row_tiles (smalln_unroll nv) 1 M] of Model/Matmul.v [kernel_wrs KSmallN] *)
+Lemma nv_of W N k : 0 < W -> (k - 1) * W < N -> N <= k * W -> 0 < k -> (N + W - 1) / W = k.
+Proof.
+  intros HW Hlo Hhi Hk. symmetry. apply (Nat.div_unique (N + W - 1) W k (N + W - 1 - W * k)); nia.
+Qed.
+
+Lemma gen_smalln_overloads_eq W M N : 0 < W -> 0 < N ->
+  (* exactly one overload is enabled *)
+  length (filter fst (gen_smalln_overloads W M N)) = 1 /\
+  (* and, unless N > 5W (forwarded to the base kernel), it unrolls the model's number of rows *)
+  Forall (fun e => fst e = true -> N <= 5 * W ->
+                   snd e = (let u := smalln_unroll ((N + W - 1) / W) in (u, M / u * u)))
+         (gen_smalln_overloads W M N).
+Proof.
+  intros HW HN. unfold gen_smalln_overloads. cbv zeta. split.
+  - assert (Hcase : N < W \/ N = W \/ (W < N < 2 * W) \/ N = 2 * W \/ (2 * W < N < 3 * W) \/ N = 3 * W \/
+                     (3 * W < N < 4 * W) \/ N = 4 * W \/ (4 * W < N < 5 * W) \/ N = 5 * W \/ 5 * W < N) by lia.
+    destruct Hcase as [H|[H|[H|[H|[H|[H|[H|[H|[H|[H|H]]]]]]]]]];
+      repeat match goal with
+             | |- context [?x <? ?y] => first [rewrite (proj2 (Nat.ltb_lt x y)) by lia | rewrite (proj2 (Nat.ltb_ge x y)) by lia]
+             | |- context [?x =? ?y] => first [rewrite (proj2 (Nat.eqb_eq x y)) by lia | rewrite (proj2 (Nat.eqb_neq x y)) by lia]
+             end; reflexivity.
+  - repeat (apply Forall_cons; [cbn [fst snd]; intros Hc Hle |]); [..| apply Forall_nil].
+    + apply Nat.ltb_lt in Hc. rewrite (nv_of W N 1) by lia. reflexivity.
+    + apply Nat.eqb_eq in Hc. rewrite (nv_of W N 1) by lia. reflexivity.
+    + apply Bool.andb_true_iff in Hc. destruct Hc as [H1 H2]. apply Nat.ltb_lt in H1, H2. rewrite (nv_of W N 2) by lia. reflexivity.
+    + apply Nat.eqb_eq in Hc. rewrite (nv_of W N 2) by lia. reflexivity.
+    + apply Bool.andb_true_iff in Hc. destruct Hc as [H1 H2]. apply Nat.ltb_lt in H1, H2. rewrite (nv_of W N 3) by lia. reflexivity.
+    + apply Nat.eqb_eq in Hc. rewrite (nv_of W N 3) by lia. reflexivity.
+    + apply Bool.andb_true_iff in Hc. destruct Hc as [H1 H2]. apply Nat.ltb_lt in H1, H2. rewrite (nv_of W N 4) by lia. reflexivity.
+    + apply Nat.eqb_eq in Hc. rewrite (nv_of W N 4) by lia. reflexivity.
+    + apply Bool.andb_true_iff in Hc. destruct Hc as [H1 H2]. apply Nat.ltb_lt in H1, H2. rewrite (nv_of W N 5) by lia. reflexivity.
+    + apply Nat.eqb_eq in Hc. rewrite (nv_of W N 5) by lia. reflexivity.
+    + apply Nat.ltb_lt in Hc. lia.
+Qed.
